@@ -27,7 +27,7 @@ import (
 func init() { register("C15", "fault_enumeration", runC15) }
 
 // server message alphabet
-var c15Alphabet = []string{"SF", "SFn", "SFt", "SFm", "SFz", "V", "Vk", "Vx", "Vp", "Ve", "Vz", "Er", "E", "J", "235", "535"}
+var c15Alphabet = []string{"SF", "SFn", "SFt", "SFm", "SFz", "V", "Vk", "Vx", "Vp", "Ve", "Vz", "V0", "Vc", "Vg", "Er", "E", "J", "235", "535"}
 
 type c15Case struct {
 	Mech   string   `json:"mech"`
@@ -178,6 +178,12 @@ func c15Handler(c c15Case, tr *c15Trace) refsmtp.AuthHandler {
 				sg := hmac.New(hf, sk.Sum(nil))
 				sg.Write([]byte(am))
 				msg = []byte("v=" + base64.StdEncoding.EncodeToString(sg.Sum(nil)))
+			case "V0": // a verifier without a signature
+				msg = []byte("v=")
+			case "Vc": // no signature, only "extensions"
+				msg = []byte("v=,x=y")
+			case "Vg": // the valid signature followed by bytes that are no extension (the verifier is another value then)
+				msg = append(append([]byte{}, x.ServerFinal()...), []byte("AAAA")...)
 			case "V":
 				msg = x.ServerFinal()
 				st.ValidHere = haveCF && sfValid && haveFin
@@ -329,13 +335,13 @@ func runC15Case(r *ev.Run, c c15Case) (open bool) {
 				invalidAcked = true
 				viol("ack-server-error-message", fmt.Sprintf("step %d: the client answered the server-error message %q with %s instead of ending the exchange with an error", i, st.Sent, st.RespKind), steps)
 			}
-		case "V", "Vk", "Vx", "Vp", "Ve", "Vz":
+		case "V", "Vk", "Vx", "Vp", "Ve", "Vz", "V0", "Vc", "Vg":
 			if st.RespKind == "ack" {
 				if st.ValidHere {
 					proofSeen = true
 				} else {
 					invalidAcked = true
-					kind := map[string]string{"V": "ack-server-final-without-valid-exchange", "Vk": "ack-server-final-of-other-key", "Vx": "ack-server-final-of-other-exchange", "Vp": "ack-replayed-server-final-of-abandoned-exchange", "Ve": "ack-server-final-over-empty-state", "Vz": "ack-server-final-of-zero-key"}[st.Sym]
+					kind := map[string]string{"V": "ack-server-final-without-valid-exchange", "Vk": "ack-server-final-of-other-key", "Vx": "ack-server-final-of-other-exchange", "Vp": "ack-replayed-server-final-of-abandoned-exchange", "Ve": "ack-server-final-over-empty-state", "Vz": "ack-server-final-of-zero-key", "V0": "ack-empty-verifier", "Vc": "ack-verifier-of-extensions-only", "Vg": "ack-signature-with-trailing-bytes"}[st.Sym]
 					viol(kind, fmt.Sprintf("step %d: the client acknowledged a server-final message that is not the valid one for the running exchange (%s)", i, st.Sym), steps)
 				}
 			} else if st.ValidHere && (st.RespKind == "cancel" || st.RespKind == "closed") {
@@ -506,7 +512,7 @@ func runC15Unusable(r *ev.Run, c c15UnusableCase) {
 
 func runC15(r *ev.Run, rep *ev.ReplayDoc) ev.Summary {
 	sum := ev.Summary{
-		Rule: "exhaustive adaptive server message sequences over the alphabet {valid server-first, server-first with foreign / truncated nonce, malformed server-first, server-first with iteration count 0, valid server-final, server-final signed with an all-zero key, server-final of another key, of another exchange, over empty client state, server-error (e=...), empty challenge, junk, 235, 535} up to length 5 (quick: 4), explored as an execution tree (a branch is extended only while the client is still inside the exchange), for SCRAM-SHA-1, SCRAM-SHA-256 and both -PLUS variants (TLS 1.2 and 1.3), through mail.Client and directly through smtp.Client.Auth. 'valid' symbols are computed from what the client actually sent. Plus: passwords the SCRAM password preparation refuses, one smtp.Auth value used for three exchanges against a server that does not know the password and signs with the empty one. non-trivial = script deviates from the honest sequence; distinct by (mechanism, script)",
+		Rule: "exhaustive adaptive server message sequences over the alphabet {valid server-first, server-first with foreign / truncated nonce, malformed server-first, server-first with iteration count 0, valid server-final, server-final signed with an all-zero key, empty verifier, verifier of extensions only, valid signature with trailing bytes, server-final of another key, of another exchange, over empty client state, server-error (e=...), empty challenge, junk, 235, 535} up to length 5 (quick: 4), explored as an execution tree (a branch is extended only while the client is still inside the exchange), for SCRAM-SHA-1, SCRAM-SHA-256 and both -PLUS variants (TLS 1.2 and 1.3), through mail.Client and directly through smtp.Client.Auth. 'valid' symbols are computed from what the client actually sent. Plus: passwords the SCRAM password preparation refuses, one smtp.Auth value used for three exchanges against a server that does not know the password and signs with the empty one. non-trivial = script deviates from the honest sequence; distinct by (mechanism, script)",
 		Assumptions: []string{
 			"the honest sequence is: empty challenge -> client-first, server-first, client-final, server-final, empty acknowledgement, 235",
 			"success may only be reported if a valid server-final for the running exchange was acknowledged before the final reply",
